@@ -465,6 +465,65 @@ func c09DrainWindow(recover bool) *Scenario {
 	return sc
 }
 
+// c09StalledProbeBody: a probe is answered 200 at once but its body never completes (it ends at the probe timeout);
+// the probes after it have the opposite outcome. The rotation must follow those later probes: a prober that is still
+// waiting for the stalled body would never notice them.
+func c09StalledProbeBody(thenFails bool) *Scenario {
+	sc := &Scenario{Name: fmt.Sprintf("C09 probe body stalls, later probes fail=%v", thenFails), Horizon: 60 * time.Second}
+	const host = "a.example.com"
+	var late []*ReqObs
+	sc.Run = func(w *World) {
+		late = nil
+		if thenFails {
+			w.AddTarget("ta:80", pOK(), pStallBody(), p500())
+		} else {
+			// failing from the second probe on, a stalled 200 in between, healthy afterwards
+			w.AddTarget("ta:80", pOK(), p500(), pStallBody(), pOK())
+		}
+		w.AddTarget("tb:80")
+		t0 := w.Now()
+		if r := w.Deploy(deployArgs("s1", []string{"ta:80", "tb:80"}, []string{host}, nil)); r.Err != nil {
+			w.Note("setup: %v", r.Err)
+			return
+		}
+		time.Sleep(t0 + 6*vI + 300*time.Millisecond - w.Now())
+		for i := 0; i < 4; i++ {
+			late = append(late, w.Do(ReqSpec{ID: fmt.Sprintf("late%d", i), Host: host}))
+		}
+	}
+	sc.Check = func(w *World) []Violation {
+		var vs []Violation
+		for _, n := range w.Notes {
+			vs = append(vs, Violation{"C09", "setup", n})
+		}
+		if len(vs) > 0 || len(late) != 4 || w.HadStall() {
+			return vs
+		}
+		counts := map[string]int{}
+		for _, r := range late {
+			counts[r.ServedBy()]++
+		}
+		probes := 0
+		for _, e := range w.Net.Events() {
+			if e.Kind == "probe" && e.Target == "ta:80" {
+				probes++
+			}
+		}
+		if probes < 5 {
+			vs = append(vs, Violation{"C09", "probing-stopped after-stalled-probe-body", fmt.Sprintf("ta was probed %d times in 6 intervals: the probe whose body stalled was never given up", probes)})
+		}
+		if thenFails {
+			if counts["ta:80"] != 0 {
+				vs = append(vs, Violation{"C09", "request-sent-to-failing-target after-stalled-probe-body", fmt.Sprintf("ta has failed every probe since the one whose body stalled; 4 requests were served %v", counts)})
+			}
+		} else if counts["ta:80"] != 2 || counts["tb:80"] != 2 {
+			vs = append(vs, Violation{"C09", "recovered-target-not-used-again after-stalled-probe-body", fmt.Sprintf("ta has passed its probes since; 4 requests were served %v", counts)})
+		}
+		return vs
+	}
+	return sc
+}
+
 // c09OverlappingDrains: two commands that drain the same healthy targets overlap (the first with the shorter drain
 // timeout, a request in flight on every target); once both have returned and the service is resumed, every target has
 // passed all its probes and no command is running: the rotation must use all of them before the next probe tick.
@@ -545,6 +604,11 @@ func checkC09(t *testing.T, job *Job, res *Result) {
 	}
 	for _, rec := range []bool{false, true} {
 		sc := c09DrainWindow(rec)
+		sc.Bounds = &Bounds{D: 1, S: 0}
+		scs = append(scs, sc)
+	}
+	for _, f := range []bool{true, false} {
+		sc := c09StalledProbeBody(f)
 		sc.Bounds = &Bounds{D: 1, S: 0}
 		scs = append(scs, sc)
 	}
